@@ -57,6 +57,15 @@ def run_c12(args, leg, sb):
                 if long_opt:
                     ev["expect_option_15_len"] = len(LONG)
                 events.append(ev)
+                # the same client renewing: ciaddr filled in, no requested-address / server-id options, same flags
+                if ack and ack["options"].get(53) == b"\x05" and n % 2 == 0:
+                    xid += 1
+                    frames, ack2 = dhcplib.exchange(sb.client, mac, 3, xid, options=opts, flags=fl, ciaddr=ack["yiaddr"])
+                    ev = {"kind": "REQUEST", "renewing": True, "flags": fl, "xid": xid, "chaddr_hex": mac.hex(), "server_ip": dhcplib.SERVER_V4,
+                          "frame_hex": frames[0].hex() if frames else None}
+                    if long_opt:
+                        ev["expect_option_15_len"] = len(LONG)
+                    events.append(ev)
     evp = os.path.join(sb.dir, "frames.jsonl")
     with open(evp, "w") as f:
         for e in events:
